@@ -58,7 +58,7 @@ def value_for(role, scope_val, dotted=0):
     return fn
 
 
-def run_config(cfg):
+def run_config(cfg, keep=None):
     """Build the nested callers and run the design; returns ('value', float) or ('raises', type name)."""
     from formulae import design_matrices
 
@@ -120,7 +120,13 @@ def run_config(cfg):
         dm = fns[3]([fns[2], fns[1], fns[0], None])  # f3 -> f2 -> f1 -> f0, no frames in between
     except Exception as e:
         return ("raises", type(e).__name__)
-    col = np.asarray(dm.common.design_matrix, dtype=float)[:, -1]
+    if keep is not None:
+        keep.append(dm)
+    return read_column(dm.common.design_matrix)
+
+
+def read_column(M):
+    col = np.asarray(M, dtype=float)[:, -1]
     if np.allclose(col, col[0]):
         return ("value", float(col[0]))
     if abs(col.mean()) < 1e-9:
@@ -223,6 +229,34 @@ def check_envobj(case, acc):
         acc.case(case, "ok", nontrivial=True)
 
 
+NEWVAL = 11.0
+
+
+def new_data_sequences(case, acc):
+    """The same order decides every later evaluation of new data: frames with and without a column of that name, in both
+    orders, each order on a design of its own.  Returns a list of problem strings."""
+    problems = []
+    arglike = case["role"] in ("arg", "bqarg", "kwarg", "nested", "dotarg")
+    without = expected({**case, "subset": [s for s in case["subset"] if s != "data"]})
+    for order in (("without", "with", "without"), ("with", "without", "with", "with")):
+        keep = []
+        if run_config(case, keep)[0] == "raises" or not keep:
+            return problems
+        dm = keep[0]
+        for step, kind in enumerate(order):
+            nd = data_frame({case["name"]: NEWVAL} if kind == "with" else None)
+            want = ("value", NEWVAL) if (kind == "with" and arglike) else without
+            acc.calls += 1
+            try:
+                got = read_column(dm.common.evaluate_new_data(nd).design_matrix)
+            except Exception as e:
+                got = ("raises", type(e).__name__)
+            if got[0] != want[0] or (got[0] == "value" and got[1] != want[1]):
+                problems.append(f"new data {kind} a column of that name (step {step + 1} of {'/'.join(order)}): got {got}, expected {want}")
+                break
+    return problems
+
+
 def check_case(case, acc):
     if case["role"] == "envobj":
         return check_envobj(case, acc)
@@ -231,6 +265,12 @@ def check_case(case, acc):
     got = run_config(case)
     want = expected(case)
     ok = got[0] == want[0] and (got[0] == "raises" or got[1] == want[1])
+    if ok and got[0] == "value":
+        later = new_data_sequences(case, acc)
+        if later:
+            acc.case(case, "MISMATCH-NEW-DATA", sample=False)
+            acc.violation("first-match-wins-on-new-data", "winner", case, f"role={case['role']} name={case['name']!r} env={case['k']} defined in {case['subset']}: " + later[0])
+            return
     if not ok:
         acc.case(case, "MISMATCH", sample=False)
         clause = "undefined-name-raises" if want[0] == "raises" else "first-match-wins"
